@@ -617,7 +617,17 @@ def check_symsrc(ctx, rule="R-SYMSRC"):
                     continue                                   # the overload that takes symbol maps
                 n += 1
                 ctx.analysed(f)
-                srcs = sorted({(f.decl(y) or {}).get("n") for y in walk(a[0]) if y["k"] in ("CXXMemberCallExpr", "CallExpr")})
+                src = a[0]
+                a0 = strip_casts(src)
+                if a0 is not None and a0["k"] == "DeclRefExpr":
+                    # a local that holds the handle: every definition of it
+                    defs = [v["c"][0] for v in f.nodes() if v["k"] == "VarDecl" and v.get("d") == a0.get("d") and v.get("c") and v["c"][0] is not None]
+                    defs += [v["c"][1] for v in f.nodes() if v["k"] == "BinaryOperator" and v.get("op") == "=" and
+                             strip_casts(v["c"][0]) is not None and strip_casts(v["c"][0])["k"] == "DeclRefExpr" and
+                             strip_casts(v["c"][0]).get("d") == a0.get("d")]
+                    srcs = sorted({(f.decl(y) or {}).get("n") for dd in defs for y in walk(dd) if y["k"] in ("CXXMemberCallExpr", "CallExpr")}) if defs else []
+                else:
+                    srcs = sorted({(f.decl(y) or {}).get("n") for y in walk(src) if y["k"] in ("CXXMemberCallExpr", "CallExpr")})
                 ok = srcs == ["elf_handle"]
                 k = sum(1 for o in ctx.obligations if o["rule"] == rule)
                 from rules.null_rules import short
